@@ -1883,6 +1883,8 @@ def _all_subterms(t):
 def as_position(res, t):
     """A hand-written loop counter (``i = 0`` before the loop, ``i += 1`` as the only update, read before the increment) is
     the position of the loop's current element: normalise it to ``("idx", seq, L)``."""
+    if isinstance(t, tuple) and t[:1] == ("binop",) and len(t) == 4:
+        return ("binop", t[1], as_position(res, t[2]), as_position(res, t[3]))
     if isinstance(t, tuple) and len(t) == 3 and t[0] == "mu" and t[1] in res.loops and t[2] in res.loops[t[1]].carried:
         L = res.loops[t[1]]
         init, step = L.carried[t[2]]
